@@ -293,10 +293,14 @@ def agnostic_federated_averaging(
     mean_delta_params = tree_util.tree_inverse_weight(delta_params_sum,
                                                       weight_sum)
     # Sum domain metrics across clients.
-    sum_domain_loss = tree_util.tree_sum(
-        d['domain_loss'] for d in client_domain_metrics.values())
-    sum_domain_num = tree_util.tree_sum(
-        d['domain_num'] for d in client_domain_metrics.values())
+    if client_domain_metrics:
+      sum_domain_loss = tree_util.tree_sum(
+          d['domain_loss'] for d in client_domain_metrics.values())
+      sum_domain_num = tree_util.tree_sum(
+          d['domain_num'] for d in client_domain_metrics.values())
+    else:
+      # A round without clients saw no example of any domain.
+      sum_domain_loss = sum_domain_num = jnp.zeros(num_domains)
     server_state = server_update(server_state, mean_delta_params,
                                  sum_domain_loss, sum_domain_num)
     return server_state, client_diagnostics
